@@ -375,7 +375,6 @@ def run(ck):
     def mark(name):
         phase[name] = round(time.time() - t_last[0], 1)
         t_last[0] = time.time()
-    mark("build")
 
     corpus = vf.corpus_cases(PID)
     for mode in ("g", "c"):
@@ -404,7 +403,7 @@ def run(ck):
     if ck.quick() and ck.proof_ok:
         plan = [("san-dns", b"a*.", 6, 6), ("cn", b"A*.", 5, 5), ("san-dns", b"ab*.-", 4, 4)]
     else:
-        plan = [("san-dns", b"ab*.-", 5, 5), ("cn", b"ab*.-", 5, 5), ("san-dns", b"aA*.", 5, 6),
+        plan = [("san-dns", b"ab*.-", 5, 5), ("cn", b"ab*.-", 4, 5), ("san-dns", b"aA*.", 5, 6),
                 ("cn", b"a*.", 7, 7), ("san-dns", b"1.:", 6, 7)]
     for kind, alpha, lc, ln in plan:
         total = xcount(len(alpha), lc) * xcount(len(alpha), ln)
@@ -416,9 +415,9 @@ def run(ck):
 
     mark("exhaustive")
     # end-to-end: real handshake over a socketpair (self-signed, verify_cert off, verify_name on)
-    nh = ck.scale(400, 6000)
+    nh = ck.scale(300, 2000)
     hcases = [hs_case(rng, plat) for _ in range(nh)]
-    nfail += par_compare(ck, hs[plat], dcmd, hcases, "handshake", nontrivial=nontrivial, chunk=100)
+    nfail += par_compare(ck, hs[plat], dcmd, hcases, "handshake", nontrivial=nontrivial, chunk=50, workers=12)
     ck.sample(hcases[0][0])
     mark("handshake")
     ck.cov["traces_validated_against_impl"] = ck.cov["evaluations"]
